@@ -2,4 +2,4 @@ From CV Require Import Promise.Promise Promise.PromiseJoin.
 From Coq Require Import ExtrOcamlBasic.
 Extraction Language OCaml.
 Extraction "promise_model.ml" init step enabled finished wants_mu quiesce run as_found f11_fixed late_fixed fixed mu_free
-  jinit jstep jenabled jfinished jmutex_blocked jquiesce jrun jfixed jseed3 jf11c all_mu_free.
+  jinit jstep jenabled jfinished jmutex_blocked jquiesce jrun jfixed jseed3 jf11c jrefs1 all_mu_free.
